@@ -496,6 +496,13 @@ type Sess struct {
 	Tags         []string
 }
 
+// Under has unexported fields whose names start with an underscore.
+type Under struct {
+	Name  string
+	_area int
+	_tags []string
+}
+
 // Ver has no methods; the Ver of the other package named ext declares Equal and Compare.
 type Ver struct {
 	Major int
@@ -589,6 +596,7 @@ func structTys() []*Ty {
 		mk("Twin", false),
 		mk("ext.Blank", false, "ext"),
 		mk("ext.Sess", false, "ext", "unexported", "extpriv"),
+		mk("ext.Under", false, "ext", "unexported", "extpriv"),
 		mk("Vers", false, "ext", "ext2", "user"),
 		mk("WrapUser", false, "user"),
 		mk("SameName", false, "ext", "unexported", "extpriv", "samename"),
